@@ -20,8 +20,10 @@ def capture_convert(text, args=()):
     writeT4GeomComp (volumes, MCNP cells) — recorded by a pass-through wrapper
     around the repository's function.'''
     import t4_geom_convert.main as main
-    original = main.writeT4GeomComp
+    original = getattr(main, 'writeT4GeomComp', None)
     box = {}
+    if original is None:        # moved by a rewrite: no capture, plain conversion
+        return impl.convert(text, args), box
 
     def wrapper(dic_vol, cells, ofile):
         box['vols'], box['cells'] = dic_vol, cells
